@@ -596,3 +596,48 @@ fn root_relative_paths(path: &Path, depth: usize, pivot: usize) -> (&Path, &Path
             .expect("overflow determining root and relative paths"),
     )
 }
+
+// Read-only observation hooks for external verification tooling.
+#[cfg(olson_sean_k_wax_verif)]
+impl<'t> Glob<'t> {
+    /// Gets the patterns of the component programs used to walk this glob.
+    pub fn verif_component_patterns(&self) -> Vec<String> {
+        if self.is_empty() {
+            vec![]
+        }
+        else {
+            WalkProgram::compile::<Tokenized<_>>(self.tree.as_ref())
+                .expect("failed to compile walk program")
+                .iter()
+                .map(|program| program.as_str().to_string())
+                .collect()
+        }
+    }
+
+    /// Gets the root path and pivot used to walk this glob in the given directory.
+    pub fn verif_anchor(&self, path: impl Into<PathBuf>) -> (PathBuf, usize) {
+        let Anchor { root, pivot } = self.anchor(path);
+        (root, pivot)
+    }
+}
+
+#[cfg(olson_sean_k_wax_verif)]
+impl FilterAny {
+    /// Gets the patterns of the exhaustive and nonexhaustive programs of this filter.
+    pub fn verif_patterns(&self) -> (Option<String>, Option<String>) {
+        use FilterAnyProgram::{Empty, Exhaustive, Nonexhaustive, Partitioned};
+
+        match self.program {
+            Empty => (None, None),
+            Exhaustive(ref exhaustive) => (Some(exhaustive.as_str().into()), None),
+            Nonexhaustive(ref nonexhaustive) => (None, Some(nonexhaustive.as_str().into())),
+            Partitioned {
+                ref exhaustive,
+                ref nonexhaustive,
+            } => (
+                Some(exhaustive.as_str().into()),
+                Some(nonexhaustive.as_str().into()),
+            ),
+        }
+    }
+}
